@@ -138,6 +138,10 @@ structure Toggles where
       were: dirty propagation from the firewall below stops at the projection, and nothing propagates
       from the projection because its value did not change. -/
   f1r : Bool := true
+  /-- F13, repair: a projection reached by backward projection is REPAIRED pedantically (every
+      recorded callee is repaired and compared, whatever the dirty marks say) instead of being
+      re-executed unconditionally.  `false` = the code before the fix. -/
+  f13 : Bool := true
   /-- not a finding: the code walks transitive-firewall-callee sets and backward-projection sets in
       hash-set order; the model walks them in ascending key order, or descending with this switch -/
   desc : Bool := false
@@ -608,13 +612,14 @@ def checkCallee (t : Toggles) (p : Program) : Nat → Key → Kind → Key → L
 def repairQuery (t : Toggles) (p : Program) : Nat → Key → Caller → M Unit
   | 0, _, _ => throwE .outOfFuel
   | fuel + 1, k, caller => do
-    if caller == .bpp then
+    if caller == .bpp && !t.f13 then
       modifyComp k fun c => { c with callees := [], order := [], unorderedMode := false }
       executeQuery t p fuel k true caller
     else
       let n ← nodeInfoUnchecked k
       let pedantic := match caller with
         | .query _ _ ped => ped
+        | .bpp => true
         | _ => false
       let mut recompute := t.f32 && n.sccRun
       let mut needTfc := false
